@@ -17,6 +17,7 @@
 #include <vf/mpi.hpp>
 #include <vf/dense.hpp>
 #include <Eigen/Dense>
+#include <Eigen/SVD>
 
 namespace c12 {
 using vf::Csr; using vf::J; using vf::Rng; using vf::Case; using vfm::Part; using vfm::Bag;
@@ -57,6 +58,23 @@ inline double kappa_spd(const Csr<double> &A) {
     Eigen::SelfAdjointEigenSolver<Eigen::MatrixXd> es(D, Eigen::EigenvaluesOnly); double lo = es.eigenvalues()[0], hi = es.eigenvalues()[A.n - 1];
     if (!(lo > 0)) { fprintf(stderr, "harness: generated matrix is not positive definite (lambda_min = %g)\n", lo); std::exit(3); }
     return hi / lo;
+}
+
+// kappa_2 of a general nonsingular matrix from the singular values (rank 0 only, n <= ~1000)
+inline double kappa_svd(const Csr<double> &A) {
+    Eigen::MatrixXd D = Eigen::MatrixXd::Zero(A.n, A.n); for (size_t i = 0; i < A.n; ++i) for (auto j = A.ptr[i]; j < A.ptr[i + 1]; ++j) D(i, A.col[j]) += A.val[j];
+    Eigen::BDCSVD<Eigen::MatrixXd> svd(D); double hi = svd.singularValues()[0], lo = svd.singularValues()[A.n - 1];
+    if (!(lo > 0)) { fprintf(stderr, "harness: generated matrix is singular\n"); std::exit(3); }
+    return hi / lo;
+}
+// Structurally non-symmetric convection-diffusion on an nx x ny grid: diffusion along x (symmetric -1/-1 couplings), pure first-order upwind
+// convection along y (row (i,j) couples to (i,j-1) only), Dirichlet inflow, positive shift: a strictly diagonally dominant non-symmetric
+// M-matrix.  With a contiguous row partition across y every rank receives from the rank below and sends to the rank above only.
+inline Csr<double> oneway_convection(int nx, int ny, double c, double shift, Rng &r) {
+    Csr<double> A((size_t)nx * ny, (size_t)nx * ny);
+    for (int j = 0; j < ny; ++j) for (int i = 0; i < nx; ++i) { ptrdiff_t id = (ptrdiff_t)j * nx + i; double cj = c * r.uni(0.8, 1.2);
+        if (j > 0) A.push(id - nx, -cj); if (i > 0) A.push(id - 1, -1.0); A.push(id, 2.0 + cj + shift); if (i + 1 < nx) A.push(id + 1, -1.0); A.end_row(); }
+    return A;
 }
 
 //---------------------------------------------------------------------------
